@@ -59,7 +59,10 @@ class Module:
             try:
                 self.consts[node.targets[0].id] = ast.literal_eval(node.value)
             except Exception:
-                pass
+                # a tuple of builtin type names such as  sequence_types = (str, list): kept as text for isinstance()
+                if isinstance(node.value, ast.Tuple) and all(isinstance(x, ast.Name) for x in node.value.elts):
+                    self.type_tuples = getattr(self, 'type_tuples', {})
+                    self.type_tuples[node.targets[0].id] = tuple(x.id for x in node.value.elts)
         elif isinstance(node, (ast.If, ast.Try)):
             for sub in ast.iter_child_nodes(node):
                 if isinstance(sub, ast.stmt):
